@@ -190,6 +190,37 @@ impl SendBuffer {
     }
 }
 
+#[cfg(feature = "quinn_rs_quinn_verif")]
+impl SendBuffer {
+    /// (segment lengths, all buffered bytes, unacked_len, offset, unsent, acks, retransmits)
+    #[allow(clippy::type_complexity)]
+    pub(super) fn verif_state(
+        &self,
+    ) -> (
+        Vec<usize>,
+        Vec<u8>,
+        usize,
+        u64,
+        u64,
+        Vec<Range<u64>>,
+        Vec<Range<u64>>,
+    ) {
+        let mut all = Vec::new();
+        for s in &self.unacked_segments {
+            all.extend_from_slice(s);
+        }
+        (
+            self.unacked_segments.iter().map(|s| s.len()).collect(),
+            all,
+            self.unacked_len,
+            self.offset,
+            self.unsent,
+            self.acks.iter().collect(),
+            self.retransmits.iter().collect(),
+        )
+    }
+}
+
 #[cfg(test)]
 mod tests {
     use super::*;
